@@ -43,6 +43,60 @@ theorem to_path_bounded (g : Graph) (src tgt : Nat) (dist : Dist) (pred : Pred) 
         · simp
         · exact walk_length pred g.maxSteps _ _ 0 [] path rfl (Nat.zero_le _) hw
 
+/-- the predecessors `best_swap_paths` hands to `to` are estimated edges of the graph, in every mode. -/
+theorem best_swap_paths_predOk (g : Graph) (src : Nat) (skip : Bool) (d : Dist) (p : Pred)
+    (a : Option Bool) (h : bestSwapPaths g src skip = .ok (d, p, a)) : PredOk g p := by
+  have hdfs : ∀ r, dfs g src = .ok r → PredOk g r.2 := by
+    intro r hr
+    unfold dfs at hr
+    split at hr
+    · cases hr
+    · cases hr
+      exact dfsRec_predOk g _ _ _ _ _ _ _ (fun _ u m hh => by cases hh) (fun v u m hh => by cases hh)
+  unfold bestSwapPaths at h
+  cases skip with
+  | true =>
+    simp only [if_true] at h
+    split at h
+    · rename_i r hr; cases h; exact hdfs r hr
+    · cases h
+  | false =>
+    simp only [Bool.false_eq_true, if_false] at h
+    split at h
+    · rename_i r hr
+      cases h
+      rw [(bellmanFord_ok hr).2.2.2]
+      exact bfLoop_predOk g _ _ _ _ _ (predOk_init g)
+    · split at h
+      · rename_i r hr; cases h; exact hdfs r hr
+      · cases h
+    · cases h
+
+/-- Validity (partial): in every mode, a recommended path is the list of markets of a genuine walk
+of the graph — consecutive ESTIMATED edges, each leaving the token the previous one entered — that
+ENDS AT THE TARGET and starts at a token without predecessor. (That this token is the source, and
+that no market repeats, is checked by the oracle on every run but not proved.) -/
+theorem to_path_is_walk_partial (g : Graph) (src tgt : Nat) (skip : Bool) (d : Dist) (p : Pred)
+    (a : Option Bool) (h : bestSwapPaths g src skip = .ok (d, p, a))
+    (hne : (toPath g src tgt d p).2 ≠ []) :
+    ∃ (x : Nat) (es : List Edge), es.map (·.market) = (toPath g src tgt d p).2 ∧
+      isWalk g x es = true ∧ walkEnd x es = tgt ∧ p x = none := by
+  have hok := best_swap_paths_predOk g src skip d p a h
+  unfold toPath at hne ⊢
+  by_cases h1 : tgt ≥ g.n
+  · simp [h1] at hne
+  · by_cases h2 : src = tgt
+    · simp [h1, h2] at hne
+    · simp only [h1, h2, if_false] at hne ⊢
+      cases hw : walk p g.maxSteps (g.maxSteps + 2) (p tgt) 0 [] with
+      | none => simp [hw] at hne
+      | some path =>
+        simp only [hw] at hne ⊢
+        by_cases h3 : path.isEmpty
+        · simp [h3] at hne
+        · simp only [h3]
+          exact walk_chain g p hok g.maxSteps tgt _ tgt 0 [] path [] rfl rfl rfl hw
+
 /-- `k` in-place rounds from the source: the distance of every node is at most the cost of ANY
 walk of at most `k` edges from the source to it (and such a node does have a distance). -/
 theorem bf_dist_le_best_k (g : Graph) (hwf : ∀ e ∈ g.edges, e.src < g.n) (src k : Nat)
